@@ -513,7 +513,9 @@ int hawk_rtx_truncrec (hawk_rtx_t* rtx, hawk_oow_t nflds)
 
 	HAWK_ASSERT (nflds <= rtx->inrec.nflds);
 
-	if (hawk_ooecs_init(&tmp, hawk_rtx_getgem(rtx), HAWK_OOECS_LEN(&rtx->inrec.line)) <= -1) goto oops;
+	/* tmp becomes inrec.line below. a capacity of 0 would give it a null pointer,
+	 * which the users of inrec.line (sub/gsub on $0 for one) take for a failure */
+	if (hawk_ooecs_init(&tmp, hawk_rtx_getgem(rtx), (HAWK_OOECS_LEN(&rtx->inrec.line) > 0? HAWK_OOECS_LEN(&rtx->inrec.line): 1)) <= -1) goto oops;
 	fini_tmp = 1;
 
 	if (nflds > 0)
